@@ -434,8 +434,29 @@ def magic_constants(b):
             if o.kind == "imm":
                 t = o.text.replace(" ", "")
                 if _MAGIC.search(t) and "addr" not in t and "imm" not in t:
-                    out.add(_re.sub(r"(u32|i32|u8|i8)?as(i32|u32|i8|u8)$", "", t).strip("()"))
+                    out.add(_canon_const(_re.sub(r"(u32|i32|u8|i8)?as(i32|u32|i8|u8)$", "", t).strip("()")))
     return out
+
+
+def _canon_const(t):
+    """a constant by its value: `0x3f800000`, `1f32.to_bits()`, `(-0.0f32).to_bits()`, `-1403630843` and
+    `2891336453` (the same 32 bits) all become one hexadecimal spelling; anything else stays text"""
+    import struct as _struct
+
+    u = t.replace("_", "")
+    m = _re.fullmatch(r"\(?(-?[\d.]+(?:e-?\d+)?)(?:f32)?\)?\.to_bits(?:\(\))?", u)
+    if m:
+        try:
+            return "%#010x" % _struct.unpack("<I", _struct.pack("<f", float(m.group(1))))[0]
+        except Exception:  # noqa: BLE001
+            return t
+    m = _re.fullmatch(r"(-?(?:0x[0-9a-fA-F]+|\d+))(?:u32|i32|u64|i64)?", u)
+    if m:
+        try:
+            return "%#010x" % (int(m.group(1), 0) & 0xFFFFFFFF)
+        except Exception:  # noqa: BLE001
+            return t
+    return t
 
 
 def check_magic_constants(rule, root=None, focus=None):
